@@ -360,7 +360,8 @@ def families(tier, seed):
             wl.append(((w, h), k))
     waves = Mapped(Product(wl, pxs, ["cos", "sin"], range(4), orders), lambda c: (c[0][0], c[1], c[0][1], c[2], c[3], c[4], seed))
 
-    psizes = sizes if quick else sizes + [(64, 4), (4, 64), (64, 63)]
+    # 13 and 17: edges with a prime factor above 11 (the sizes FFT code is tempted to pad)
+    psizes = sizes + [(13, 6), (6, 13), (13, 13)] if quick else sizes + [(13, 6), (6, 13), (13, 13), (17, 5), (64, 4), (4, 64), (64, 63)]
     ns = [(n, s) for n in range(1, 11) for s in range(n)]
     pairing = Mapped(Product(psizes, pxs, ns, ["zyx", "xyz"], ["array", "list"]), lambda c: (c[0], c[1], c[2][0], c[2][1], c[3], c[4], seed))
 
